@@ -62,6 +62,13 @@ impl FieldValue {
     }
 }
 
+/// Maximum depth of nested embedded messages.
+///
+/// Embedded messages are decoded recursively, so this bounds the stack space
+/// that a (possibly malicious) input can make the decoder use. This is the same
+/// as the default limit of the official Protocol Buffers implementations.
+const MAX_NESTING_DEPTH: u32 = 100;
+
 /// Read a single field of a message.
 ///
 /// `Field`s are produced by iterating over fields of a message using
@@ -90,6 +97,9 @@ pub struct Field<'r, R: ReadValue> {
 
     /// Debug name of the message type this field belongs to.
     context: Option<&'static str>,
+
+    /// Nesting depth of the message this field belongs to.
+    depth: u32,
 
     /// Unconsumed field ID slot in the parent [`Fields`].
     unconsumed_field: &'r mut Option<u64>,
@@ -145,9 +155,17 @@ impl<'r, R: ReadValue> Field<'r, R> {
         match self.value {
             FieldValue::Len(len) => {
                 self.consume_field()?;
+                if self.depth >= MAX_NESTING_DEPTH {
+                    return Err(self.error(ErrorKind::NestingTooDeep));
+                }
+                let err_context = (self.context, self.number);
                 Ok(Fields {
-                    reader: self.reader.sub_limit(len),
+                    reader: self
+                        .reader
+                        .sub_limit(len)
+                        .map_err(|err| err.with_context(err_context.0, Some(err_context.1)))?,
                     context,
+                    depth: self.depth + 1,
                     unconsumed_field: None,
                 })
             }
@@ -241,11 +259,16 @@ impl<'r, R: ReadValue> Field<'r, R> {
         let repeated = match self.value {
             FieldValue::Varint(val) => Repeated::Unpacked(Some(from_u64(val))),
             FieldValue::Len(len) => {
+                let err_context = (self.context, self.number);
                 let consumed = &mut self.consumed;
-                let mut reader = self.reader.sub_limit(len);
+                let mut reader = self
+                    .reader
+                    .sub_limit(len)
+                    .map_err(|err| err.with_context(err_context.0, Some(err_context.1)))?;
                 let iter = std::iter::from_fn(move || match reader.read_varint() {
                     Ok(val) => Some(Ok(from_u64(val))),
-                    Err(err) if matches!(err.kind(), ErrorKind::Eof) => {
+                    // The packed values must extend to the end of the field.
+                    Err(err) if matches!(err.kind(), ErrorKind::Eof) && reader.at_limit() => {
                         *consumed = true;
                         None
                     }
@@ -268,11 +291,16 @@ impl<'r, R: ReadValue> Field<'r, R> {
         let repeated = match self.value {
             FieldValue::I32(val) => Repeated::Unpacked(Some(from_le_bytes(val.to_le_bytes()))),
             FieldValue::Len(len) => {
+                let err_context = (self.context, self.number);
                 let consumed = &mut self.consumed;
-                let mut reader = self.reader.sub_limit(len);
+                let mut reader = self
+                    .reader
+                    .sub_limit(len)
+                    .map_err(|err| err.with_context(err_context.0, Some(err_context.1)))?;
                 let iter = std::iter::from_fn(move || match reader.read_i32() {
                     Ok(val) => Some(Ok(from_le_bytes(val.to_le_bytes()))),
-                    Err(err) if matches!(err.kind(), ErrorKind::Eof) => {
+                    // The packed values must extend to the end of the field.
+                    Err(err) if matches!(err.kind(), ErrorKind::Eof) && reader.at_limit() => {
                         *consumed = true;
                         None
                     }
@@ -295,11 +323,16 @@ impl<'r, R: ReadValue> Field<'r, R> {
         let repeated = match self.value {
             FieldValue::I64(val) => Repeated::Unpacked(Some(from_le_bytes(val.to_le_bytes()))),
             FieldValue::Len(len) => {
+                let err_context = (self.context, self.number);
                 let consumed = &mut self.consumed;
-                let mut reader = self.reader.sub_limit(len);
+                let mut reader = self
+                    .reader
+                    .sub_limit(len)
+                    .map_err(|err| err.with_context(err_context.0, Some(err_context.1)))?;
                 let iter = std::iter::from_fn(move || match reader.read_i64() {
                     Ok(val) => Some(Ok(from_le_bytes(val.to_le_bytes()))),
-                    Err(err) if matches!(err.kind(), ErrorKind::Eof) => {
+                    // The packed values must extend to the end of the field.
+                    Err(err) if matches!(err.kind(), ErrorKind::Eof) && reader.at_limit() => {
                         *consumed = true;
                         None
                     }
@@ -392,6 +425,9 @@ pub struct Fields<'r, R: ReadValue> {
     /// Debug name of the message type.
     context: Option<&'static str>,
 
+    /// Nesting depth of this message. Zero for a top-level message.
+    depth: u32,
+
     /// The number of the last variable length field which was not consumed
     /// before being dropped. This is used to report an error when attempting
     /// to read the next field.
@@ -407,6 +443,7 @@ impl<'r, R: ReadValue> Fields<'r, R> {
         Self {
             reader: LimitReader::new(reader, u64::MAX),
             context,
+            depth: 0,
             unconsumed_field: None,
         }
     }
@@ -432,8 +469,13 @@ impl<'r, R: ReadValue> Fields<'r, R> {
 
         let tag = match self.reader.read_varint() {
             Ok(tag) => tag,
-            Err(err) if matches!(err.kind(), ErrorKind::Eof) => return Ok(None),
-            Err(err) => return Err(err),
+            // The end of the stream is only the end of the message if this
+            // is a top-level message. An embedded message must extend to the
+            // end given by its length prefix.
+            Err(err) if matches!(err.kind(), ErrorKind::Eof) && self.reader.at_limit() => {
+                return Ok(None);
+            }
+            Err(err) => return Err(err.with_context(self.context, None)),
         };
         let number = tag >> 3;
         let wire_type = tag & 0x7;
@@ -453,12 +495,18 @@ impl<'r, R: ReadValue> Fields<'r, R> {
         }
         .map_err(|err| err.with_context(self.context, Some(number)))?;
 
+        let reader = self
+            .reader
+            .sub_limit(len)
+            .map_err(|err| err.with_context(self.context, Some(number)))?;
+
         Ok(Some(Field {
-            reader: self.reader.sub_limit(len),
+            reader,
             number,
             consumed: !matches!(value, FieldValue::Len(_)),
             value,
             context: self.context,
+            depth: self.depth,
             unconsumed_field: &mut self.unconsumed_field,
         }))
     }
